@@ -7,7 +7,7 @@ from simdag.core.tape import Tape
 SCAL = ["x", "y", "z", "u", "v", "<p>g", "<p>h", "i", "j"]
 # local names whose family is drawn *per phase*: the same name is a scalar in one phase and a flag or a
 # user type in another (per-phase tables must be independent)
-POLY = ["q", "r2"]
+POLY = ["q", "r2", "t", "dt", "d"]        # (t, dt, d: per-step names that merely look like <t> and <dt>)
 BOOL = ["b1", "b2", "<p>flag"]
 ARR = ["a", "arr", "<p>A"]
 UT = ["k", "k2", "w", "<state>y", "<state>w"]
@@ -193,6 +193,8 @@ KIND_UNIVERSE = ["Boolean", "Integer", "Scalar_r", "Scalar_c", "Array_r", "Array
 
 def make_kind(name):
     from dagrt.data import Array, Boolean, Integer, Scalar, UserType
+    # user-type identifiers are fresh string objects every time (equal, not identical: ids that were parsed,
+    # formatted or read from a file are never the interned literal)
     return {"Boolean": Boolean(), "Integer": Integer(), "Scalar_r": Scalar(True), "Scalar_c": Scalar(False),
-            "Array_r": Array(True), "Array_c": Array(False), "UT_a": UserType("a"), "UT_b": UserType("b"),
-            "None": None}[name]
+            "Array_r": Array(True), "Array_c": Array(False), "UT_a": UserType("".join(["type", "_a"])),
+            "UT_b": UserType("".join(["type", "_b"])), "None": None}[name]
